@@ -5,13 +5,28 @@ CFG = dict(
           "{end all members | Cancel}, run inside a synctest bubble with a settle (synctest.Wait) after every step and compared "
           "with a reference model of tracked members (pool done <=> all tracked ended or Cancel; Size = tracked, 0 after Cancel; "
           "late contexts ignored; watcher goroutine gone at bubble exit). Exhaustive sweep of all histories of <=4 (thorough 5) ops "
-          "from a 7-op menu. Non-trivial: an Add accepted while the pool was live, or a raced Add. Distinct by full history.",
+          "from a 9-op menu. Non-trivial: an Add accepted while the pool was live, a raced Add, a member that ended while NewPool / "
+          "Add was looking at it, or a member ended by the clock. Distinct by full history.",
      technique="model-based property testing (rapid, scripted histories in testing/synctest bubbles) + exhaustive short-history enumeration",
      level_text="Generated histories against a reference model with exact equality at every settled point; when an Add races the end "
                 "of the last live member both outcomes the statement allows are accepted and told apart through Size. Schedule "
                 "coverage of the racing pair is the Go scheduler's (statistical); everything else is deterministic.",
      level_note="Trusts testing/synctest (go1.26.8), the Go runtime and rapid. The watcher's exit is observed through the bubble's "
                 "leftover-goroutine detection.",
-     assumptions=["testing/synctest virtual time and Wait() are correct", "contexts are created with context.WithCancel"],
+     assumptions=["testing/synctest virtual time and Wait() are correct", "member contexts are the context package's own (WithCancel / WithCancelCause / WithDeadline / Background / WithValue / "
+                  "WithoutCancel) or a wrapper of the harness's own type around one of them that answers every method as the wrapped context does"],
      timeout_quick=300, timeout_thorough=2400)
 CFG["rule"] += ' One case in four is a large pool (up to 40 initial members, 70 operations).'
+CFG["rule"] += (' One case in three hands every cancellable member over as a context of the harness\'s OWN TYPE (a wrapper whose '
+                'Done / Err / Deadline / Value calls are counted and are schedule points): at the n-th call (1..4) of a method on '
+                'member i another member, or the member itself, is ended before / after the method computes its result - so members '
+                'end WHILE NewPool / Add are looking at them. A member that was live when such a call began and ended during it may or '
+                'may not be counted by Size (a range, resolved once); if it was the last live member during an Add, the Add may go '
+                'either way as in a race; everything else stays exact (all members ended => pool done, never earlier; watcher gone). '
+                'Half of the cases have members that end by DEADLINE (context.WithDeadline; unit ms / s / h of the bubble\'s virtual '
+                'clock; deadlines at odd, clock readings at even multiples of the unit): any member may have one, or EVERY initial '
+                'context has one while contexts added later may have none or a later one; "tick" operations advance the clock, and '
+                'the "members" finish first lets the clock pass every deadline and compares before ending what is left. '
+                'TestPoolCallSchedules enumerates every single schedule point on pools of 1..3 initial contexts (NewPool) and on an '
+                'Add to pools of 0..2; TestPoolDeadlineSweep enumerates pools of 0..3 initial contexts of {live, ended, deadline +1, '
+                'deadline +3} x histories of <=3 (thorough 4) operations from {Add(no deadline | +1 | +5), tick +2 | +4, end 0 | 1}.')
